@@ -420,11 +420,26 @@ fn verbatim_between<'a>(begin: syn::parse::ParseBuffer<'a>, end: ParseStream<'a>
     tokens
 }
 
+/// A brace group ends an item. So does a macro_rules fragment (`$i:item`, `$b:block`), which arrives as
+/// an invisible (None-delimited) group: it ends the item if its own last token does.
+fn ends_with_brace_or_semi(group: &proc_macro2::Group) -> bool {
+    use proc_macro2::{Delimiter, TokenTree};
+
+    match group.delimiter() {
+        Delimiter::Brace => true,
+        Delimiter::None => match group.stream().into_iter().last() {
+            Some(TokenTree::Group(inner)) => ends_with_brace_or_semi(&inner),
+            Some(TokenTree::Punct(punct)) => punct.as_char() == ';',
+            _ => false,
+        },
+        _ => false,
+    }
+}
+
 fn parse_matched_braces_or_ending_semi(input: ParseStream) -> syn::Result<TokenStream> {
     let mut tokens = input.step(|cursor| {
         let mut tokens = TokenStream::new();
 
-        use proc_macro2::Delimiter;
         use proc_macro2::TokenTree;
 
         let mut rest = *cursor;
@@ -432,9 +447,9 @@ fn parse_matched_braces_or_ending_semi(input: ParseStream) -> syn::Result<TokenS
         while let Some((tt, next)) = rest.token_tree() {
             match &tt {
                 TokenTree::Group(group) => {
-                    let is_brace = group.delimiter() == Delimiter::Brace;
+                    let ends_item = ends_with_brace_or_semi(group);
                     tokens.extend(std::iter::once(tt));
-                    if is_brace {
+                    if ends_item {
                         return Ok((tokens, next));
                     }
                 }
